@@ -193,6 +193,7 @@ def build_unit(u, tier, extra_defs=(), tag='', trace=False):
     for c in u.get('no_checks', []):
         if c in checks:
             checks.remove(c)
+        checks.append('--no-' + c[2:])        # several checks are on by default in cbmc 6
     checks += u.get('checks', [])
     cb = ['cbmc', b_gb, '--json-ui'] + checks
     unwind = tier_val(u, 'unwind', tier)
@@ -489,7 +490,7 @@ def main():
     results = []
     # longest first
     units.sort(key=lambda u: -u.get('cost', 10))
-    with cf.ThreadPoolExecutor(max_workers=max(1, CORES // 2)) as ex:
+    with cf.ThreadPoolExecutor(max_workers=max(1, CORES - 2)) as ex:
         futs = {ex.submit(build_unit, u, tier): u for u in units}
         for fu in cf.as_completed(futs):
             u = futs[fu]
